@@ -1357,6 +1357,37 @@ export class TupleRuntype extends BaseRuntype {
   }
 }
 
+function isPlainObject(value: unknown): value is Record<string, unknown> {
+  return typeof value === "object" && value !== null && Object.getPrototypeOf(value) === Object.prototype;
+}
+
+// The members of an intersection all parse the same input, so their results are projections of
+// one value. A property that several members declare (with different object types) must keep what
+// each of them projected: merge the projections key by key instead of letting the last one win.
+function mergeProjections(a: any, b: any): any {
+  if (a === b) {
+    return b;
+  }
+  if (Array.isArray(a) && Array.isArray(b)) {
+    const out = [];
+    for (let i = 0; i < Math.max(a.length, b.length); i++) {
+      out.push(i < a.length && i < b.length ? mergeProjections(a[i], b[i]) : i < b.length ? b[i] : a[i]);
+    }
+    return out;
+  }
+  if (isPlainObject(a) && isPlainObject(b)) {
+    const out = {};
+    for (const k of Object.keys(a)) {
+      setOwnProperty(out, k, a[k]);
+    }
+    for (const k of Object.keys(b)) {
+      setOwnProperty(out, k, Object.prototype.hasOwnProperty.call(a, k) ? mergeProjections(a[k], b[k]) : b[k]);
+    }
+    return out;
+  }
+  return b;
+}
+
 export class AllOfRuntype extends BaseRuntype {
   private schemas: Runtype[];
   constructor(metadata: RuntypeMetadata | undefined, schemas: Runtype[]) {
@@ -1399,7 +1430,7 @@ export class AllOfRuntype extends BaseRuntype {
       if (typeof parsed !== "object") {
         throw new Error("INTERNAL ERROR: AllOfParser: Expected object");
       }
-      acc = { ...acc, ...parsed };
+      acc = mergeProjections(acc, parsed);
     }
     return acc;
   }
